@@ -127,8 +127,71 @@ func parseModel(out string) map[string]string {
 	return m
 }
 
-// dischargeAll solves all non-trivial obligations in parallel.
+// dischargeAll solves the obligations: all instances (paths) of one obligation name are first tried as a single
+// batched query (unsat = every instance holds); only names whose batch is not unsat are solved instance by instance.
 func dischargeAll(obls []*Obligation, dir string, timeoutS, seed, workers int) {
+	os.MkdirAll(dir, 0o755)
+	groups := map[string][]*Obligation{}
+	var order []string
+	for _, o := range obls {
+		if o.Trivial || o.Kind == "cover" || o.Kind == "canary" {
+			continue
+		}
+		if _, ok := groups[o.Name]; !ok {
+			order = append(order, o.Name)
+		}
+		groups[o.Name] = append(groups[o.Name], o)
+	}
+	type bjob struct {
+		name string
+		file string
+		os   []*Obligation
+	}
+	var bjobs []bjob
+	for gi, name := range order {
+		g := groups[name]
+		if len(g) < 2 {
+			continue
+		}
+		var alts []*Term
+		for _, o := range g {
+			alts = append(alts, And(append(append([]*Term{}, o.PC...), Not(o.Goal))...))
+		}
+		q := BuildQuery(nil, Not(Or(alts...)), false, nil)
+		f := filepath.Join(dir, fmt.Sprintf("b%05d.smt2", gi))
+		hdr := fmt.Sprintf("; batched obligation %s (%d instances)\n", name, len(g))
+		if err := os.WriteFile(f, []byte(hdr+q), 0o644); err != nil {
+			panic(err)
+		}
+		bjobs = append(bjobs, bjob{name, f, g})
+	}
+	{
+		var wg sync.WaitGroup
+		sem := make(chan struct{}, workers)
+		for _, j := range bjobs {
+			wg.Add(1)
+			sem <- struct{}{}
+			go func(j bjob) {
+				defer wg.Done()
+				defer func() { <-sem }()
+				r := solveQuery(j.file, timeoutS, seed, true)
+				if r.status == "unsat" {
+					for _, o := range j.os {
+						o.Status = "unsat"
+						o.Solver = r.solver
+						o.Time = r.secs / float64(len(j.os))
+						o.Query = j.file
+						o.batched = true
+					}
+				}
+			}(j)
+		}
+		wg.Wait()
+	}
+	dischargeEach(obls, dir, timeoutS, seed, workers)
+}
+
+func dischargeEach(obls []*Obligation, dir string, timeoutS, seed, workers int) {
 	os.MkdirAll(dir, 0o755)
 	var wg sync.WaitGroup
 	sem := make(chan struct{}, workers)
@@ -139,7 +202,10 @@ func dischargeAll(obls []*Obligation, dir string, timeoutS, seed, workers int) {
 	}
 	var jobs []job
 	for i, o := range obls {
-		if o.Trivial {
+		if o.Trivial || o.batched {
+			if o.batched {
+				o.PC = nil
+			}
 			continue
 		}
 		wantModel := true
